@@ -3,7 +3,12 @@ Seeded universes over the pools of NpmModel.tla (5-12 packages, 1-5 versions inc
 latest-tagged ones, regular/optional/dev/peer/bundle-scoped requirements, every operator kind, cycles, diamond conflicts,
 aliases) -> real npm resolver over a LocalClient with the install-tree hook (build tag verif) -> TLC NpmTrace evaluates
 NpmModel!NpmViolations (edge satisfaction, completeness, reachability, fresh-install pick rule, one name per directory,
-Node lookup lands on the edge target) on every recorded (universe, graph, tree)."""
+Node lookup lands on the edge target) on every recorded (universe, graph, tree).
+Second source of universes: NpmResolve.tla models the resolver itself (depth-first stack, walk up the install tree, reuse and
+slot protection, pick rule, hoisting as high as the tree allows) as a state machine for universes without aliases and
+bundles; TLC NpmResolveMC explores it on EVERY universe of a small family, checks one-name-per-directory at every step and
+every clause of C06 on every (graph, tree) the MODEL returns, and emits each universe with the model's graph and tree; the real
+resolver is run on all of them, judged by the same clauses, and compared with the model (information)."""
 import json, os, random, time
 import vlib
 
@@ -84,6 +89,15 @@ def run(ctx):
             uni, roots = gen_universe(rng, tables)
             for rt in roots:
                 cases.append({"universe": uni, "root": rt})
+    nr_states = nr_gen = nmodel = 0
+    if not ctx.replay:
+        modelf = os.path.join(wdir, "model_cases.raw")
+        rm = vlib.tlc("NpmResolveMC", os.path.join(vlib.SPEC, "NpmResolveMC_%s.cfg" % ctx.tier), wdir, env={"VERIF_OUT": modelf}, workers=12, timeout=2400, heap="12g")
+        vlib.tlc_must_pass(rm, "NpmResolveMC (one name per directory at every step; every clause of C06 on the algorithm model's results)")
+        nr_states, nr_gen = rm.distinct, rm.generated
+        mcases = vlib.read_ndjson(modelf)
+        nmodel = len(mcases)
+        cases = mcases + cases
     casef = os.path.join(wdir, "cases.ndjson")
     obsf = os.path.join(wdir, "obs.ndjson")
     vlib.write_ndjson(casef, cases)
@@ -106,9 +120,13 @@ def run(ctx):
             nontrivial += 1
         if any(t["parent"] > 1 for t in o["tree"]):
             nested += 1
+    model_diff = []
     for idx, x in rej:
         o = json.loads(lines[idx - 1])
         g = o["graph"]
+        if x["law"].startswith("info-"):
+            model_diff.append({"law": x["law"], "universe": o["universe"], "graph": g, "tree": o["tree"], "model": o.get("model")})
+            continue
         detail = None
         if x["law"] in ("edge-not-satisfied", "fresh-install-pick", "node-lookup-lands-elsewhere") and x["k"]:
             e = g["edges"][x["k"] - 1]
@@ -132,10 +150,15 @@ def run(ctx):
         print("replay: case no longer fails on the current tree")
         return 0
     rc = verdict.finish(wdir)
+    if model_diff:
+        json.dump(model_diff[:20], open(os.path.join(wdir, "model_divergence.json"), "w"), indent=1)
+        print("NOTE: the real resolver differs from the algorithm model NpmResolve.tla on %d of %d family universes (not a verdict; see %s)"
+              % (len(model_diff), nmodel, os.path.join(wdir, "model_divergence.json")))
     s = json.loads(lines[0])
-    cov = {"states": states, "transitions": gen, "traces_validated_against_impl": resolved, "evaluations": len(lines),
+    cov = {"states": states + nr_states, "transitions": gen + nr_gen, "traces_validated_against_impl": resolved, "evaluations": len(lines),
            "distinct_nontrivial": nontrivial,
-           "rule": "seeded universes over the pools of NpmModel.tla; two roots per universe; non-trivial = resolved graph with >= 4 nodes; "
+           "algorithm_model": {"family_universes": nmodel, "states": nr_states, "real_resolver_differs_on": len(model_diff)},
+           "rule": "every universe of the NpmResolveMC family (TLC-enumerated, with the algorithm model's graph and tree) + seeded universes over the pools of NpmModel.tla; two roots per universe; non-trivial = resolved graph with >= 4 nodes; "
                    "%d resolutions produced a nested install (a package below depth 1), %d ended in a resolver error (not judged)" % (nested, errs),
            "samples": [{"root": s["root"], "universe_packages": len(s["universe"]), "graph": s["graph"], "tree": s["tree"][:6]}],
            "known_findings_hit": {k: v[0] for k, v in verdict.hits.items()}, "exhaustive": False}
